@@ -348,8 +348,10 @@ class DefaultNodeIO(BaseNodeIO):
 
         # Create file
         try:
+            # mode "x": never overwrite an existing file (which, given the
+            # failed check above, names a different node)
             with open(
-                pathlib.Path(self.node.root).joinpath("ALPENHORN_NODE"), mode="w"
+                pathlib.Path(self.node.root).joinpath("ALPENHORN_NODE"), mode="x"
             ) as f:
                 f.write(self.node.name + "\n")
         except OSError as e:
